@@ -8,7 +8,48 @@ def fmtPow : Option PowErr → String
   | some .highTarget => "err high-target"
   | some .highHash => "err high-hash"
 
+def parseNodes (s : String) : Option (List Node) :=
+  (s.splitOn ",").foldr (fun x acc => match x.splitOn ":", acc with
+    | [t, b], some l => match nat? t, hexNat? b with
+      | some t, some b => some (⟨t, b⟩ :: l)
+      | _, _ => none
+    | _, _ => none) (some [])
+
+def parseNodeSteps (xs : List String) : Option (List (Nat × Int)) :=
+  xs.foldr (fun x acc => match x.splitOn "/", acc with
+    | [d, k], some l => match nat? d, int? k with
+      | some d, some k => some ((d, k) :: l)
+      | _, _ => none
+    | _, _ => none) (some [])
+
+def fmtWalk : WalkOut → String
+  | .ok b => natToHex b
+  | .err => "err"
+  | .panic => "panic"
+
 def stepC09 : List String → String
+  | ["walk", adj, ts, per, lim, limBits, tipHeight, nodes] =>
+      match int? adj, int? ts, int? per, int? lim, hexNat? limBits, nat? tipHeight, parseNodes nodes with
+      | some adj, some ts, some per, some lim, some lb, some h, some ns =>
+        fmtWalk (calcNextChain ⟨adj, ts, per, lim, lb⟩ h ns)
+      | _, _, _, _, _, _, _ => "bad-op"
+  | ["hashps", tipHeight, nodes] => match nat? tipHeight, parseNodes nodes with
+      | some h, some ns => toString (networkHashPS h ns)
+      | _, _ => "bad-op"
+  | ["curdiff", limBits, bits] => match hexNat? limBits, hexNat? bits with
+      | some lb, some b => match currentDifficulty lb b with
+        | some d => toString d
+        | none => "panic"
+      | _, _ => "bad-op"
+  | "node" :: genesis :: steps => match parseNodes genesis, parseNodeSteps steps with
+      | some [g], some steps =>
+        let p : PowParams := ⟨4, 10, 1, 2 ^ 255 - 1, 0x2000ffff⟩
+        let (outs, chain) := nodeRun p [g] steps []
+        let tipBits := match chain.getLast? with | some t => t.bits | none => 0
+        " ".intercalate (outs.map (fun x => natToHex x.1 ++ ":" ++ (if x.2 then "1" else "0"))) ++
+          " d=" ++ (match currentDifficulty p.limitBits tipBits with | some d => toString d | none => "panic") ++
+          " h=" ++ toString (networkHashPS (chain.length - 1) chain)
+      | _, _ => "bad-op"
   | ["c2b", c] => match hexNat? c with
       | some c => if c < 2 ^ 32 then toString (compactToBig c) else "bad-op"
       | none => "bad-op"
